@@ -24,6 +24,7 @@ MUTANTS = [
     ("C01", "resize-verify-ge", "signal_layout.go", "\tif lastSig.GetRelativeStartPos()+lastSig.GetSize() > newSize {", "\tif lastSig.GetRelativeStartPos()+lastSig.GetSize() >= newSize {"),
     ("C01", "shrink-pulls-one-less", "signal_layout.go", "\t\t\ttmpSig.setRelativeStartPos(tmpSig.GetRelativeStartPos() - amount)", "\t\t\ttmpSig.setRelativeStartPos(tmpSig.GetRelativeStartPos() - amount + 1)"),
     ("C01", "bus-check-after-layout-resize", "message.go", "\tif m.hasSenderNodeInt() {\n\t\tif err := m.senderNodeInt.verifyMessageSize(newSizeByte); err != nil {\n\t\t\treturn err\n\t\t}\n\t}\n\n\tif err := m.signalLayout.resize(newSizeByte * 8); err != nil {\n\t\treturn m.errorf(err)\n\t}\n", "\tif err := m.signalLayout.resize(newSizeByte * 8); err != nil {\n\t\treturn m.errorf(err)\n\t}\n\n\tif m.hasSenderNodeInt() {\n\t\tif err := m.senderNodeInt.verifyMessageSize(newSizeByte); err != nil {\n\t\t\treturn err\n\t\t}\n\t}\n"),
+    ("C01", "d36-second-ref-grows-twice", "signal_enum.go", "\tfor _, tmpSig := range se.refs.entries() {\n\t\tif err := tmpSig.modifySize(amount); err != nil {", "\tseenMsg := map[*Message]int{}\n\tfor _, tmpSig := range se.refs.entries() {\n\t\tk := 1\n\t\tif pm := tmpSig.ParentMessage(); pm != nil {\n\t\t\tseenMsg[pm]++\n\t\t\tk = seenMsg[pm]\n\t\t}\n\t\tif err := tmpSig.modifySize(amount * k); err != nil {"),
     ("C07", "rename-skips-mux-table", "signal.go", "\tif canUpdMuxSig {\n\t\ts.parentMuxSig.signalNames.remove(oldName)", "\tif canUpdMuxSig && !s.hasParentMsg() {\n\t\ts.parentMuxSig.signalNames.remove(oldName)"),
     ("C07", "rename-skips-message-table-for-multiplexed", "signal.go", "\tif s.hasParentMsg() {\n\t\tif err := s.parentMsg.verifySignalName(newName); err != nil {\n\t\t\treturn s.errorf(&UpdateNameError{Err: err})\n\t\t}\n\n\t\ts.parentMsg.signalNames.remove(oldName)", "\tif s.hasParentMsg() {\n\t\tif err := s.parentMsg.verifySignalName(newName); err != nil {\n\t\t\treturn s.errorf(&UpdateNameError{Err: err})\n\t\t}\n\t}\n\tif s.hasParentMsg() && !canUpdMuxSig {\n\t\ts.parentMsg.signalNames.remove(oldName)"),
     ("C07", "group-id-bound-gt", "mux_signal.go", "\tif groupID >= ms.groupCount {", "\tif groupID > ms.groupCount {"),
